@@ -67,7 +67,7 @@ FATAL = (ImportError, SyntaxError, KeyboardInterrupt, SystemExit, MemoryError)
 def crash_text(e):
     return "crash %s: %s" % (type(e).__name__, str(e)[:160])
 
-TOL = {"float32": 1e-5, "float64": 1e-12}
+TOL = {"float32": 1e-5, "float64": 1e-12, "float16": 3e-2}
 N_SUB = 6  # rows of move_proj sent to the driver in the ordinary pv cases
 
 
@@ -648,6 +648,8 @@ def run_spec(spec):
     if kind in ("evaluate", "server", "dataset"):
         return run_spec_positions(spec, cfg)
     m = xf.build(cfg)
+    if spec.get("outlier"):
+        _plant_outlier(m, cfg, spec["outlier"])
     pairs = []
     if spec.get("via") == "loaded":
         # the model as a deployment gets it: written with save_model, read back with load_model
@@ -701,6 +703,45 @@ def run_spec(spec):
     else:
         raise ValueError(kind)
     return pairs
+
+
+def _plant_outlier(m, cfg, o):
+    """one token's embedding carries a large-magnitude feature (the "massive activation" outliers of trained
+    transformers): representable in the model's dtype, and none of the other tokens' business"""
+    emb = next(mod for mod in m.modules() if isinstance(mod, torch.nn.Embedding) and mod.num_embeddings == cfg.n_vocab)
+    with torch.no_grad():
+        emb.weight[o["token"]] = 0
+        emb.weight[o["token"], o["dim"] % emb.weight.shape[1]] = float(o["value"])
+
+
+def gen_half_specs(ctx, n):
+    """half-precision models (what `analysis_server --fp16` and a non-CPU `serve_dtype` serve in) with one
+    outlier token: rows that do not contain it are compared alone vs next to a row that does"""
+    rng = ctx.rng
+    for it in range(n):
+        causal = it % 2 == 1
+        cfg = rand_cfg(rng, head="text" if causal else rng.choice(["pv", "text"]), n_vocab=12, dtype="float16", min_ctx=8, causal=causal)
+        cfg.train = False
+        out = {"token": 11, "dim": rng.randrange(64), "value": rng.choice([20000.0, 30000.0, -20000.0])}
+        V = 11  # ordinary tokens: 0..10
+        if not causal:
+            W = rng.randint(4, cfg.n_ctx)
+            rows, lens = [], []
+            for r in range(rng.randint(2, 4)):
+                ln = rng.randint(1, W)
+                rows.append([rng.randrange(V) for _ in range(W)])
+                lens.append(ln)
+            loud = rng.randrange(len(rows))
+            rows[loud][rng.randrange(lens[loud])] = 11
+            yield {"kind": "padded", "cfg": cfg.to_json(), "rows": rows, "lens": lens, "outlier": out,
+                   "indices": [i for i in range(len(rows)) if i != loud]}
+        else:
+            n_tok = rng.randint(1, cfg.n_ctx - 2)
+            toks = [rng.randrange(V) for _ in range(n_tok)]
+            room = cfg.n_ctx - n_tok
+            s1 = [11] + [rng.randrange(V) for _ in range(rng.randint(0, room - 1))]
+            s2 = [rng.randrange(V) for _ in range(rng.randint(1, room))]
+            yield {"kind": "causal", "cfg": cfg.to_json(), "toks": toks, "suffix1": s1, "suffix2": s2, "outlier": out}
 
 
 def _rounds_of(spec):
@@ -993,6 +1034,7 @@ def tie(ctx):
     _tie_call_sites(ctx, divs)
     _direct(ctx, divs, gen_specs(ctx, 6000 if ctx.thorough else 600))
     _direct(ctx, divs, gen_position_specs(ctx, 80 if ctx.thorough else 10))
+    _direct(ctx, divs, gen_half_specs(ctx, 60 if ctx.thorough else 12))
     return divs
 
 
